@@ -1039,11 +1039,15 @@ private:
     void skip_to_section_end(Memory::InputMemoryStream& stream, 
                              const uint32_t num_records) const;
     void skip_to_dname_end(Memory::InputMemoryStream& stream) const;
-    void update_records(uint32_t& section_start, 
-                        uint32_t num_records,
-                        uint32_t threshold,
-                        uint32_t offset);
-    uint8_t* update_dname(uint8_t* ptr, uint32_t threshold, uint32_t offset);
+    static void update_records(byte_array& data,
+                               uint32_t& section_start, 
+                               uint32_t num_records,
+                               uint32_t threshold,
+                               uint32_t offset);
+    static uint8_t* update_dname(uint8_t* ptr, 
+                                 const uint8_t* end, 
+                                 uint32_t threshold, 
+                                 uint32_t offset);
     static void inline_convert_v4(uint32_t value, char* output);
     static bool contains_dname(uint16_t type);
     void write_serialization(uint8_t* buffer, uint32_t total_sz);
